@@ -7,7 +7,9 @@ import (
 	"fmt"
 	"os"
 	"path/filepath"
+	"strconv"
 	"strings"
+	"syscall"
 	"time"
 
 	"github.com/jamespfennell/gtfs"
@@ -33,20 +35,65 @@ type Case struct {
 // names[i-1] is the file name of name index i; byte-wise order = index order.
 var names = []string{"10", "9", "B.pb", "_x", "a", "a.b", "a0", "b"}
 
+// Name indexes beyond the pool stand for synthetic names that sort after the pool, in index order.
+func nameOf(i int) string {
+	if i <= len(names) {
+		return names[i-1]
+	}
+	return fmt.Sprintf("m%06d", i)
+}
+
 func nameIndex(s string) int {
 	for i, n := range names {
 		if n == s {
 			return i + 1
 		}
 	}
+	var k int
+	if _, err := fmt.Sscanf(s, "m%06d", &k); err == nil && k > len(names) && nameOf(k) == s {
+		return k
+	}
 	return -1
+}
+
+// LongBadRun is a directory of n entries that open but do not parse (or cannot be read), then three good files, one
+// more bad entry and a last good file. It is run with a small limit on open files: whatever a skipped entry holds on
+// to must be released before the next one is tried.
+func LongBadRun(n int) Case {
+	var c Case
+	kinds := []string{"empty", "corrupt", "truncated", "subdir", "corrupt"}
+	for i := 0; i < n; i++ {
+		c.Entries = append(c.Entries, Entry{Name: 100 + i, Kind: kinds[i%len(kinds)]})
+	}
+	c.Entries = append(c.Entries, Entry{100 + n, "good"}, Entry{101 + n, "goodR"}, Entry{102 + n, "good"}, Entry{103 + n, "empty"}, Entry{104 + n, "good"})
+	return c
+}
+
+// WithOpenFileLimit runs f with the soft limit on open files lowered to n (restored afterwards).
+func WithOpenFileLimit(n uint64, f func()) error {
+	var old syscall.Rlimit
+	if err := syscall.Getrlimit(syscall.RLIMIT_NOFILE, &old); err != nil {
+		return err
+	}
+	lim := old
+	lim.Cur = n
+	if err := syscall.Setrlimit(syscall.RLIMIT_NOFILE, &lim); err != nil {
+		return err
+	}
+	defer syscall.Setrlimit(syscall.RLIMIT_NOFILE, &old)
+	f()
+	return nil
 }
 
 // feedOf is the content of the good file with name index i: one trip that sheds stops from the front
 // as i grows, so that the journal built from a directory depends on the order and the set of files.
 func feedOf(i int) jrn.Feed {
 	u := jrn.Update{Pfx: 1, Sfx: 1, Route: 1, Dir: 1, Start: 3600, Veh: abs.Some(1)}
-	for s := i; s <= 9; s++ {
+	last := 9
+	if i > last { // synthetic names: one stop, numbered like the file
+		last = i
+	}
+	for s := i; s <= last; s++ {
 		u.Stus = append(u.Stus, jrn.Stu{Stop: s, Arr: abs.Some(100*i + 10*s), Dep: abs.Some(100*i + 10*s + 5), Track: abs.None[int]()})
 	}
 	f := jrn.Feed{T: 10 * i, Ups: abs.Seq[jrn.Update]{u}}
@@ -131,10 +178,10 @@ func materialise(dir string, entries []Entry, onlyGood bool) (vanish []string, e
 		return nil, err
 	}
 	for _, e := range entries {
-		if e.Name < 1 || e.Name > len(names) {
+		if e.Name < 1 {
 			return nil, fmt.Errorf("name index %d out of range", e.Name)
 		}
-		p := filepath.Join(dir, names[e.Name-1])
+		p := filepath.Join(dir, nameOf(e.Name))
 		good := goodBytes(e)
 		if onlyGood && !isGood(e.Kind) {
 			continue
@@ -199,7 +246,12 @@ func drainJournal(dir string, vanish []string) (out abs.Seq[jrn.Entry], crash st
 // Run executes one case; scratch is an empty directory it may use and must leave empty.
 func Run(id string, c Case, scratch string, w *abs.Writer) (crashes []jrn.Crash, err error) {
 	rec := Record{Case: id, Entries: c.Entries}
-	dir := filepath.Join(scratch, "d")
+	// the directory's own name carries characters that mean something to globbing, shells and URLs
+	dirNames := []string{"d", "feeds[2024]", "line-[A]*", "q?x", "a b#c%20"}
+	dir := filepath.Join(scratch, dirNames[0])
+	if n, err := strconv.Atoi(strings.TrimPrefix(id, "tlc-")); err == nil {
+		dir = filepath.Join(scratch, dirNames[n%len(dirNames)])
+	}
 	defer os.RemoveAll(dir)
 	vanish, err := materialise(dir, c.Entries, false)
 	if err != nil {
